@@ -366,7 +366,25 @@ def r7(ctx):
   why = ('TimeoutError is never delivered before t+T and the call completes by t+T: the stored deadline must be exactly the issue time plus the '
          'timeout; any other clock-sample coefficient moves it')
   defs = local_defs(f.node)
-  tparam, sparam = f.params[4], f.params[5]
+  # which parameters of _DispatchMethod carry the timeout and the issue time: bound at the call sites in DispatchMethodCall
+  g = prog.func(D, 'MessageDispatcher.DispatchMethodCall')
+  tp = g.params[4]
+  gclock = [U(st.targets[0]) for st in walk_no_nested(g.node) if isinstance(st, ast.Assign) and U(st.value) == 'time.time()' and isinstance(st.targets[0], ast.Name)]
+  tparam = sparam = None
+  for c in ast.walk(g.node):
+    if isinstance(c, ast.Call) and call_attr(c) == '_DispatchMethod':
+      for i, a in enumerate(c.args):
+        if 1 + i < len(f.params):
+          if U(a) == tp:
+            tparam = f.params[1 + i]
+          if U(a) in gclock:
+            sparam = f.params[1 + i]
+  if tparam is None:
+    raise AnalysisError('C01.R7: timeout parameter of _DispatchMethod not found')
+  if sparam is None:
+    ctx.ob('C01.R7', f, 'deadline = start_time + timeout', False,
+           '_DispatchMethod does not receive the issue time sampled in DispatchMethodCall (clock samples there: %s)' % gclock, why)
+    sparam = '<issue time>'
   call = [c for c in walk_no_nested(f.node) if isinstance(c, ast.Call) and call_attr(c) == 'StaticDispatchMessage']
   if len(call) != 1 or len(call[0].args) < 5:
     raise AnalysisError('C01.R7: StaticDispatchMessage call not found')
@@ -393,8 +411,6 @@ def r7(ctx):
       ctx.ob('C01.R7', f, 'no timeout: no deadline', last is not None and U(last.value) == 'None', 'no-timeout path sets %s' % (U(last.value) if last is not None else None), why, nontrivial=False)
   ctx.floor('C01.R7', 'deadline paths', n, 1)
   ctx.ob('C01.R7', f, 'the dispatcher passes start_time and the deadline on', U(call[0].args[2]) == sparam, 'start time argument is %s' % U(call[0].args[2]), why, nontrivial=False)
-  g = prog.func(D, 'MessageDispatcher.DispatchMethodCall')
-  tp = g.params[4]
   for ev, ex in enum_paths(ctx, g):
     if ex[0] != 'ret':
       continue
@@ -408,7 +424,7 @@ def r7(ctx):
     ctx.ob('C01.R7', g, 'timeout = given timeout or the default', okt, 'timeout is %s' % [U(t.value) for t in tdef], why)
     sname = U(ev[clock[0]].node.targets[0]) if clock else None
     calls = [c for c in ast.walk(g.node) if isinstance(c, ast.Call) and call_attr(c) == '_DispatchMethod']
-    okc = len(calls) == 2 and all(len(c.args) == 5 and U(c.args[3]) == tp and U(c.args[4]) == sname for c in calls)
+    okc = len(calls) == 2 and all(tp in [U(a) for a in c.args] and sname in [U(a) for a in c.args] for c in calls)
     ctx.ob('C01.R7', g, 'both dispatch paths use that timeout and issue time', okc, '_DispatchMethod calls: %s' % [U(c) for c in calls], why)
 
 
